@@ -34,7 +34,20 @@ compared, the error returned. -/
 theorem verify_covers_all :
     verifyDelegate = "verifyCollectionFragments" ∧ verifyRangesGraphs = true ∧ verifyRangesFiles = true ∧
     verifyNodeIntegrity = true ∧ verifyEdgeIntegrity = true ∧ checksumGuardReturns = true ∧
-    checksumComparesSha = true ∧ checksumComparesBytes = true := by decide
+    checksumComparesSha = true ∧ checksumComparesBytes = true ∧
+    -- the duplicate-id / endpoint resolver is created inside the loop over graphs: `LoadEnv.init` per graph
+    -- (`preflight_is_per_graph`); one resolver shared by all graphs (however it is reset) changes this fact
+    resolverScope = "per-graph" := by decide
+
+/-- Model `validateExtracted`: in `validateExtractedCollection` the checksum guard sits in the loop over ALL
+manifest file entries (graphs × files), looks the tracked file up under `fileEntry.Path` without a comma-ok
+escape, nothing in that loop can skip an entry (`continue` / `break`), and the guard compares the manifest's
+digest and size with the tracked ones and returns the error (`extracted_collection_verified`). -/
+theorem extracted_validation_keys :
+    extractedRange = "nextManifest.Graphs>graphEntry.Files" ∧ extractedKey = "fileEntry.Path" ∧
+    extractedSkips = false ∧
+    extractedArgs = ["absolutePath", "fileEntry.SHA256", "fileEntry.CompressedBytes", "actual.sha256", "actual.compressedBytes"] := by
+  decide
 
 /-- Model `verifyFrag` / `Man.validate`: every comparison of the verification code is the one the model
 makes. `verifyFrag` refuses when `recs.length ≠ f.count`, `b.length ≠ f.cbytes`, `hash b ≠ f.sha`: in the
@@ -54,6 +67,21 @@ theorem verify_comparisons :
       ("validate.count.nonneg", "<"), ("validate.sha.nonempty", "=="), ("validate.path.nonempty", "=="),
       ("load.node.fragmentCount", "!="), ("load.graph.nodeCount", "!="), ("load.graph.edgeCount", "!=")] ∧
     bytesGuard = ">=" ∧ validateBytesNonneg = "<" := by decide
+
+/-- Model `requireEOF`: every `n, err := r.Read(p)` of the package examines `n` before `err` (a reader may
+return its last bytes together with `io.EOF`; `eof_check_contract` vs `eof_check_err_first_unsound`). The only
+such call site is the end-of-stream probe of the envelope reader; a new site or a swapped order changes the fact. -/
+theorem read_sites_n_first : readSites = ["requireEncryptedArchiveEOF:n-first"] := by decide
+
+/-- Model `decodeWhole` (`manifest_decode_total_input`): manifest.json and the archive header are decoded by
+`json.Unmarshal` on the WHOLE byte slice; the dump checkpoint (shared with C19) and every JSON line by a Decoder
+whose first value is followed by an explicit end-of-input check. The key envelope reader takes the first value of
+its stream and ignores what follows — recorded as it is: the key is the same key, the tie checks that such a file
+opens nothing but what the key opens. A decoder that stops after the first value of manifest.json changes the fact. -/
+theorem json_decoders_total :
+    jsonDecoders = ["readManifest:unmarshal-whole-slice", "readDumpCheckpoint:decoder+eof-check",
+      "readEncryptedArchiveHeader:unmarshal-whole-slice", "readCompressedJSONLinesFromReader:decoder+eof-check",
+      "readArchiveKeyBytes:decoder-first-value"] := by decide
 
 /-- Model `extractOne`: `O_EXCL` (and `O_CREATE`, no `O_TRUNC`) on the open call; inside the loop the
 sanitiser, the duplicate check and the typeflag allow-list `{TypeReg, TypeRegA}` precede the extraction
